@@ -549,7 +549,22 @@ thread_local! {
     pub static TIMER_COVER_DEFAULT: Cell<bool> = const { Cell::new(false) };
 }
 
+#[derive(Clone, Debug)]
+pub struct RxRec {
+    pub seq: u64,
+    pub at: Tt,
+    pub node: usize,
+    pub port: usize,
+    pub event: bool,
+    pub bytes: Rc<Vec<u8>>,
+    /// state of the receiving port before the frame was handled
+    pub state_before: PState,
+    pub summary: CallSummary,
+}
+
 pub struct World {
+    pub keep_rx: bool,
+    pub rx_log: Vec<RxRec>,
     pub keep_snapshots: bool,
     pub snapshots: Vec<SnapshotParts>,
     pub time: Rc<SimTime>,
@@ -590,6 +605,8 @@ impl World {
         lock_stats_reset();
         let _ = log_counts_take();
         World {
+            keep_rx: false,
+            rx_log: Vec::new(),
             keep_snapshots: false,
             snapshots: Vec::new(),
             time: Rc::new(SimTime { now: Cell::new(0), seq: Cell::new(0) }),
@@ -836,11 +853,15 @@ impl World {
                 }
                 self.log_ev(2, (node * 16 + port) as u64, from_seq);
                 self.nodes[node].ports[port].rx_count += 1;
-                if event {
+                let state_before = self.nodes[node].ports[port].state();
+                let summary = if event {
                     let stamp = self.nodes[node].ports[port].stamp_clock.borrow().stamp_at(self.now());
-                    self.host_call(node, port, HostCall::RxEvent(frame, stamp), ch);
+                    self.host_call(node, port, HostCall::RxEvent(frame.clone(), stamp), ch)
                 } else {
-                    self.host_call(node, port, HostCall::RxGeneral(frame), ch);
+                    self.host_call(node, port, HostCall::RxGeneral(frame.clone()), ch)
+                };
+                if self.keep_rx {
+                    self.rx_log.push(RxRec { seq: self.seq(), at: self.now(), node, port, event, bytes: frame, state_before, summary });
                 }
                 Stepped::Host
             }
